@@ -6,7 +6,7 @@ WT=/tmp/confirm_wt; export CARGO_TARGET_DIR=/tmp/confirm_target
 [ -d $WT ] || git -C /repo worktree add -q --detach $WT HEAD
 cd $WT && git checkout -q --detach $(git -C /repo rev-parse HEAD) && git checkout -- . && git clean -fdq
 git apply "$D/patch.diff" || { echo "CONFIRM: patch does not apply"; exit 1; }
-grep -v "^// append to\|^// This file must be appended" "$D/demo_test.rs" >> "$F"
+python3 /verif/tools_insert_demo.py "$F" "$D/demo_test.rs"
 cargo test -p saito-core --lib --offline 2>&1 | grep -E "^test .*FAILED|test result" > /tmp/confirm_with.txt
 echo "--- with patch:"; cat /tmp/confirm_with.txt
 git apply -R "$D/patch.diff"
